@@ -63,7 +63,10 @@ def base_values(shape, dtype, variant, slot):
         v = numpy.array(_seq(BT, n, slot), dtype=bool)
         if variant in ('nz', 'pos', 'mat'):
             v[:] = True
-        return v.reshape(shape)
+        v = v.reshape(shape)
+        if variant == 'sym' and len(shape) >= 2:
+            v = v | numpy.swapaxes(v, -1, -2)
+        return v
     if dtype == 'i':
         v = numpy.array(_seq(IT, n, slot), dtype=numpy.int64)
         if variant == 'pos':
@@ -204,11 +207,17 @@ class Ctx:
         elif kind == 'basis':
             b = self.bases[slot % 2]
             idx = numpy.array([(i + slot) % b.shape[0] for i in range(n)], dtype=int).reshape(shape)
-            field = b[idx] if shape else b[(slot) % b.shape[0]]
+            # mat / sym operands must stay (hermitian) symmetric: one basis function times a symmetric weight
+            field = b[idx] if shape and variant not in ('mat', 'sym') else b[(slot) % b.shape[0]]
         elif kind == 'ielem':
             field = self.ielems[slot % 2]
         else:
             raise ValueError(kind)
+        if kind == 'ielem' and variant in ('idx', 'nidx'):
+            # an index must have integer bounds that nutils can PROVE to lie inside the axis (evaluable.NormDim asserts it,
+            # numpy's IndexError is value dependent): element index times ones, bounds [0,1] (idx) or [-2,-1] (nidx)
+            arr = field * function.Array.cast(numpy.ones(shape, dtype=int)) if shape else field
+            return (arr - 2 if variant == 'nidx' else arr), {}
         if dtype == 'b':
             if kind == 'ielem':
                 pat = function.Array.cast(base_values(shape, 'i', 'idx', slot))
@@ -216,6 +225,8 @@ class Ctx:
             th = numpy.array(_seq(TH, n, slot)).reshape(shape)
             if kind == 'basis':
                 th = th / 2
+            if variant == 'sym' and len(shape) >= 2:
+                th = (th + numpy.swapaxes(th, -1, -2)) / 2
             return numpy.greater(field, function.Array.cast(th)), {}
         W = numpy.asarray(_weights(shape, dtype, variant, slot, V))
         if dtype == 'c' and variant != 'sym':
